@@ -41,7 +41,7 @@ def run(R):
         mp["records"] = None
     tr = os.path.join(R.scratch, "c06.ndjson")
     R.drive("c06", "out=" + tr, "cases=" + cf, "stride=%d" % (13 if q else 1), "seed=%d" % R.seed, "njson=%d" % (4 if q else 60), timeout=6000,
-            env=dict(VERIF_CASE_TIMEOUT_S="30"))
+            env=dict(VERIF_CASE_TIMEOUT_S="60"))
     R.validate("Trace_Robust", tr, reset_events=("Hostile",), timeout=3000)
     R.extra_cov["tlc_hostile_inputs"] = n
     return vlib.finish(R, "model_checking", RULE, ASSUME)
@@ -60,9 +60,9 @@ def replay(R, path):
                 mp["records"] = None
                 f.write(json.dumps(dict(schema=schema)) + "\n")
             f.write(json.dumps(c) + "\n")
-        R.drive("c06", "out=" + tr, "cases=" + cf, "njson=0", env=dict(VERIF_CASE_TIMEOUT_S="30"))
+        R.drive("c06", "out=" + tr, "cases=" + cf, "njson=0", env=dict(VERIF_CASE_TIMEOUT_S="60"))
     else:
         open(cf, "w").close()
-        R.drive("c06", "out=" + tr, "seed=%d" % int(c.get("seed", 1)), "njson=%d" % (int(c.get("i", 0)) + 1), env=dict(VERIF_CASE_TIMEOUT_S="30"))
+        R.drive("c06", "out=" + tr, "seed=%d" % int(c.get("seed", 1)), "njson=%d" % (int(c.get("i", 0)) + 1), env=dict(VERIF_CASE_TIMEOUT_S="60"))
     R.validate("Trace_Robust", tr, reset_events=("Hostile",), batches=1)
     return vlib.finish(R, "model_checking", RULE, ASSUME)
